@@ -45,9 +45,8 @@ Definition record_press (r : option dm_record) (k max_presses : N) : option dm_r
 Definition record_release (r : option dm_record) (k : N) : option dm_record :=
   option_map (fun s => dr_add_event s k false) r.
 
-(* `macro_items.remove(len - 1)`: panics on an empty vector *)
-Definition drop_last (items : list dm_item) : outcome (list dm_item) :=
-  match items with [] => Panic "dynamic macro: remove(len - 1) on empty recording" | _ => Ok (removelast items) end.
+(* `macro_items.pop()`: drops the last item, a no-op on an empty vector *)
+Definition drop_last (items : list dm_item) : outcome (list dm_item) := Ok (removelast items).
 
 Definition begin_record (id : N) (r : option dm_record) : outcome (option dm_record * option (N * list dm_item)) :=
   match r with
